@@ -292,9 +292,9 @@ def run(chk):
     seen = {}
     for t in ts:
         nm = t.func.node.name
-        k2 = (nm, t.text)
+        k2 = (nm, t.ctext)
         seen[k2] = seen.get(k2, 0) + 1
-        chk.ob("R07.5", "%s: `%s` exact modulo p" % (nm, t.text), t.exact, loc=L(t.node), key="C07|R07.5|%s|%s|%d" % (nm, t.text, seen[k2]), detail="%s: `%s` tests a value classified %s" % (nm, t.text, [o.cls for o in t.operands]))
+        chk.ob("R07.5", "%s: `%s` exact modulo p" % (nm, t.text), t.exact, loc=L(t.node), key="C07|R07.5|%s|%s|%d" % (nm, t.ctext, seen[k2]), detail="%s: `%s` tests a value classified %s" % (nm, t.text, [o.cls for o in t.operands]))
     for fn, n, a in M.ctor_args:
         if fn.node.name in inloop and len(a) == 3:
             chk.ob("R07.5", "%s: result point built from reduced coordinates" % fn.node.name, all(v.cls == R for v in a), loc=L(n), key="C07|R07.5|ctor|%s" % fn.node.name, detail="%s builds its result from %s" % (fn.node.name, [v.cls for v in a]))
@@ -308,7 +308,7 @@ def run(chk):
         if out is None:
             continue
         nm = t.func.node.name
-        k2 = (nm, t.text)
+        k2 = (nm, t.ctext)
         sites[k2] = sites.get(k2, 0) + 1
-        chk.ob("R06.4", "%s: `%s` (Y == 0 -> %s)" % (nm, t.text, out), False, loc=L(t.node), key="C07|R06.4|%s|%s|%d" % (nm, t.text, sites[k2]),
+        chk.ob("R06.4", "%s: `%s` (Y == 0 -> %s)" % (nm, t.text, out), False, loc=L(t.node), key="C07|R06.4|%s|%s|%d" % (nm, t.ctext, sites[k2]),
                detail="%s treats Y == 0 as the identity (`%s` -> %s): k*T for a point T of order 2 is computed as INFINITY" % (nm, t.text, out))
